@@ -280,7 +280,7 @@ pub fn project(def: &J, o: &Obs) -> J {
             if o.text.starts_with("Version: ") {
                 json!({"class":"stdout","kind":"version","vtext":o.text.trim_end()})
             } else {
-                json!({"class":"stdout","kind":"help","path":help_path(def,&o.text)})
+                json!({"class":"stdout","kind":"help","path":help_path(def,&o.text),"text":o.text})
             }
         }
         "stderr" => json!({"class":"stderr","text":o.text}),
@@ -303,6 +303,13 @@ pub fn conforms(expect: &J, got: &J) -> bool {
             }
             if let Some(p) = expect.get("path") {
                 if !p.is_null() && Some(p) != got.get("path") {
+                    return false;
+                }
+            }
+            // C18: what the help text tells about the variables of the level it describes
+            if let Some(ls) = expect.get("envlines").and_then(J::as_array) {
+                let text = got["text"].as_str().unwrap_or("");
+                if !ls.iter().filter_map(J::as_str).all(|l| text.contains(l)) {
                     return false;
                 }
             }
